@@ -336,9 +336,16 @@ func subHX(prop string, scopes []string, tier string, cov map[string]interface{}
 	pool := par.NewPool(Workers(), "worker", "hx")
 	defer pool.Close()
 	var viols []string
+	knownSeen := map[string]*Finding{}
+	defer func() {
+		for _, id := range keys(knownSeen) {
+			fmt.Printf("KNOWN-FINDING: property=%s %s: %s\n", prop, id, knownSeen[id].What)
+		}
+	}()
 	for _, name := range scopes {
 		classify := func(v *hx.Violation) string {
 			if f := MatchFinding(prop, v.Notes, v.Fail.Kind, v.Fail.Msg); f != nil {
+				knownSeen[f.ID] = f
 				return f.ID
 			}
 			return ""
